@@ -1623,9 +1623,16 @@ int ov_pcm_seek_page(OggVorbis_File *vf,ogg_int64_t pos){
          begin == vf->dataoffsets[link] &&
          ogg_page_serialno(&og)==vf->serialnos[link]){
 
-        /* Yes, this is the beginning-of-stream case. We already have
-           our page, right at the beginning of PCM data.  Set state
-           and return. */
+        /* Yes, this is the beginning-of-stream case.  The page in
+           hand is not necessarily the first data page (a first page
+           that completes no packet has no granule position and was
+           passed over above); fetch that one.  Set state and
+           return. */
+
+        result=_seek_helper(vf,vf->dataoffsets[link]);
+        if(result) goto seek_error;
+        result=_get_next_page(vf,&og,-1);
+        if(result<0) goto seek_error;
 
         vf->pcm_offset=total;
 
